@@ -109,12 +109,16 @@ def find_link_image(string, offset, delimiters, matches, root=None):
 
 
 def process_emphasis(string, stack_bottom, delimiters, matches):
-    star_bottom = stack_bottom
-    underscore_bottom = stack_bottom
+    # lower bounds for the opener search, one per kind of closer (delimiter character,
+    # whether the closer can also open, length of its original run modulo 3).
+    # they are kept as references to delimiters, not as indices, so that they stay
+    # valid when delimiters are removed from the stack.
+    openers_bottom = {}
     curr_pos = next_closer(stack_bottom, delimiters)
     while curr_pos is not None:
         closer = delimiters[curr_pos]
-        bottom = star_bottom if closer.type[0] == '*' else underscore_bottom
+        bottom_key = (closer.type[0], closer.open, closer.original_number % 3)
+        bottom = index_of(openers_bottom.get(bottom_key), delimiters, stack_bottom)
         open_pos = matching_opener(curr_pos, delimiters, bottom)
         if open_pos is not None:
             opener = delimiters[open_pos]
@@ -127,22 +131,16 @@ def process_emphasis(string, stack_bottom, delimiters, matches):
             matches.append(match)
             # remove all delimiters in between
             del delimiters[open_pos + 1:curr_pos]
-            curr_pos -= curr_pos - open_pos - 1
+            curr_pos = open_pos + 1
             # remove appropriate number of chars from delimiters
             if not opener.remove(n, left=False):
                 delimiters.remove(opener)
                 curr_pos -= 1
             if not closer.remove(n, left=True):
+                # continue with the delimiter that follows the closer
                 delimiters.remove(closer)
-                curr_pos -= 1
-            if curr_pos < 0:
-                curr_pos = 0
         else:
-            bottom = curr_pos - 1 if curr_pos > 1 else None
-            if closer.type[0] == '*':
-                star_bottom = bottom
-            else:
-                underscore_bottom = bottom
+            openers_bottom[bottom_key] = delimiters[curr_pos - 1] if curr_pos > 0 else None
             if not closer.open:
                 delimiters.remove(closer)
             else:
@@ -342,6 +340,13 @@ def next_closer(curr_pos, delimiters):
         if hasattr(delimiter, 'close') and delimiter.close:
             return i
     return None
+
+
+def index_of(delimiter, delimiters, default):
+    for i, other in enumerate(delimiters):
+        if other is delimiter:
+            return i
+    return default
 
 
 def matching_opener(curr_pos, delimiters, bottom):
